@@ -138,6 +138,7 @@ fn ty_code(t: TransactionType) -> &'static str {
         TransactionType::GoldenTicket => "TGoldenTicket",
         TransactionType::BlockStake => "TBlockStake",
         TransactionType::SPV => "TSPV",
+        TransactionType::ATR => "TATR",
         _ => "TOther",
     }
 }
@@ -989,7 +990,15 @@ async fn random_case(c: &mut Ctx, rng: &mut Rng, len: usize) {
             if ins.is_empty() {
                 continue;
             }
-            match rng.below(3) {
+            match rng.below(4) {
+                3 => {
+                    // producer-only types arriving from outside
+                    let mut tx = c.build_tx(&ins, 10, 0, false);
+                    tx.transaction_type = *rng.pick(&[TransactionType::Fee, TransactionType::ATR, TransactionType::SPV]);
+                    let sk = c.sk_of(&ins[0].public_key);
+                    tx.sign(&sk);
+                    c.op_submit(tx, "producer-only-type", false).await;
+                }
                 0 => {
                     let mut s = ins[0].clone();
                     s.tx_ordinal += 1000;
